@@ -34,6 +34,10 @@ def specials():
                 ("dict", (("a", True, a),), False)]
     out += [("list", None, ()), ("dict", (), False), ("dict", (), True), ("any", (ANY, INT)),
             ("any", (INT, ANY))]
+    # a value that is not equal to itself: a schema pinned to it must still equal itself
+    nan = S("float", call(float("nan")))
+    out += [nan, ("list", ("elems", (nan,)), ()), ("dict", (("a", False, nan),), False),
+            ("any", (nan, NONE)), S("float", call(float("nan")), ("precision", 1))]
     return out
 
 
